@@ -105,6 +105,8 @@ class E(opscalar.ScalarOp):
 
         """
         tau, T1, T2, g = common.map_arrays([tau, T1, T2, g])
+        if np.any(np.asarray(tau) < 0):
+            raise ValueError("Cannot have negative time")
 
         if not name:  # default name
             name = common.repr_operator(
@@ -179,6 +181,8 @@ class P(opscalar.ScalarOp):
 
         """
         tau, g = common.map_arrays([tau, g])
+        if np.any(np.asarray(tau) < 0):
+            raise ValueError("Cannot have negative time")
 
         if not name:  # default name
             name = common.repr_operator(
